@@ -18,6 +18,16 @@
 (*   atoms : Seq(Node)           heap of atom cells                        *)
 (*   eff   : Seq(Node)           ordered effect log (arguments of trace!)  *)
 (*   fuel  : Nat                 bounds the recursion so that TLC stops    *)
+(*   depth : Nat                 TAIL-CALL DISCIPLINE (C08): number of      *)
+(*                               enclosing NON-TAIL evaluations.  A form in *)
+(*                               tail position (last form of a fn/do/let   *)
+(*                               body, selected if branch, macro expansion,*)
+(*                               quasiquote result, closure application)   *)
+(*                               is evaluated at the SAME depth; every     *)
+(*                               other sub-evaluation at depth + 1.        *)
+(*   depths: Seq(Nat)            depth seen by each call of the probe       *)
+(*                               builtin depth!                            *)
+(*   visits: set of <<form, bindings>> handed to an evaluation (C18)       *)
 (* Result r = [k, v, st],  k \in                                           *)
 (*   "val"     v is the value                                              *)
 (*   "thr"     a lisp value v was thrown                                   *)
@@ -36,7 +46,7 @@ SpecialForms == {"def", "let", "quote", "quasiquote", "quasiquoteexpand", "defma
 
 \* builtins that need the evaluator or the state
 StateNames == {"trace!", "throw", "atom", "deref", "reset!", "swap!", "apply", "map", "eval",
-               "update", "raise!", "boom!", "boom-str!", "gensym-reset!"}
+               "update", "raise!", "boom!", "boom-str!", "depth!"}
 BuiltinNames == PureNames \cup StateNames
 
 \* ---------------------------------------------------------------- scopes
@@ -90,30 +100,79 @@ TryParts(a) ==
       fin |-> IF hasF THEN Tail(last.xs) ELSE <<>>,
       ok |-> (hasC => Len(c.xs) >= 3 /\ c.xs[2].t = "sym")]
 
-RECURSIVE Ev(_, _, _), EvArgs(_, _, _, _, _), EvBody(_, _, _, _), EvLet(_, _, _, _),
+\* ------------------------------------------------- visits (C18: what a stepper is handed)
+Watch == {"x", "y", "e", "q"}
+RECURSIVE AbstractV(_, _)
+AbstractV(v, atoms) ==
+  CASE v.t = "fn" -> Mk("fn", 0, v.s, <<>>, NoMap)
+    [] v.t = "bfn" -> Mk("bfn", 0, "", <<>>, NoMap)
+    [] v.t = "atom" -> Mk("atom", 0, "", <<AbstractV(atoms[v.i], atoms)>>, NoMap)
+    [] v.t = "err" -> Mk("err", 0, v.s, <<>>, NoMap)
+    [] v.t \in {"list", "vec"} -> Mk(v.t, 0, "", [k \in 1..Len(v.xs) |-> AbstractV(v.xs[k], atoms)], NoMap)
+    [] v.t = "map" -> Mk("map", 0, "", <<>>, [k \in DOMAIN v.m |-> AbstractV(v.m[k], atoms)])
+    [] OTHER -> v
+Unbound == Mk("unbound", 0, "", <<>>, NoMap)
+Visit(a, e, st) == [f |-> AbstractV(a, st.atoms),
+                    b |-> [nm \in Watch |-> LET l == Lookup(st.envs, e, nm) IN
+                                              IF l.found THEN AbstractV(l.v, st.atoms) ELSE Unbound]]
+Note(a, e, st) == IF st.track THEN [st EXCEPT !.visits = @ \cup {Visit(a, e, st)}] ELSE st
+
+\* quasiquote AS CODED (mal.go quasiquote / qq_loop): the rewrite into cons / concat / vec / quote
+RECURSIVE QQRewrite(_), QQLoop(_, _)
+QQLoop(xs, i) ==
+  IF i > Len(xs) THEN ListV(<<>>)
+  ELSE LET x == xs[i] IN
+    IF HeadIs(x, "splice-unquote") /\ Len(x.xs) >= 2
+    THEN ListV(<<SymV("concat"), x.xs[2], QQLoop(xs, i + 1)>>)
+    ELSE ListV(<<SymV("cons"), QQRewrite(x), QQLoop(xs, i + 1)>>)
+QQRewrite(t) ==
+  IF t.t = "vec" THEN ListV(<<SymV("vec"), QQLoop(t.xs, 1)>>)
+  ELSE IF t.t \in {"map", "sym"} THEN ListV(<<SymV("quote"), t>>)
+  ELSE IF t.t = "list" THEN (IF HeadIs(t, "unquote") /\ Len(t.xs) >= 2 THEN t.xs[2] ELSE QQLoop(t.xs, 1))
+  ELSE t
+\* is every unquote / splice-unquote of the template well formed (has its operand)?
+RECURSIVE QQWellFormed(_)
+QQWellFormed(t) ==
+  IF t.t \in {"list", "vec"} THEN
+    /\ (t.t = "list" /\ HeadIs(t, "unquote") => Len(t.xs) >= 2)
+    /\ \A k \in 1..Len(t.xs) : (HeadIs(t.xs[k], "splice-unquote") => Len(t.xs[k].xs) >= 2) /\ QQWellFormed(t.xs[k])
+  ELSE TRUE
+
+RECURSIVE Ev(_, _, _), EvArgs(_, _, _, _, _), EvBody(_, _, _, _), EvBodySub(_, _, _, _), EvLet(_, _, _, _),
           ApplyFn(_, _, _), QQ(_, _, _), QQSeq(_, _, _, _, _), EvMapLit(_, _, _, _, _),
           Expand(_, _, _), CallBuiltin(_, _, _), MapF(_, _, _, _, _)
 
 \* evaluate forms xs[i..] in scope e; value of the last; nil when there is none
+\* a sub-evaluation (not in tail position): one level deeper, depth restored afterwards
+EvSub(a, e, st) == LET r == Ev(a, e, [st EXCEPT !.depth = @ + 1]) IN [r EXCEPT !.st.depth = st.depth]
+ApplySub(f, args, st) == LET r == ApplyFn(f, args, [st EXCEPT !.depth = @ + 1]) IN [r EXCEPT !.st.depth = st.depth]
+
+\* the LAST form is in tail position
 EvBody(xs, i, e, st) ==
   IF i > Len(xs) THEN R("val", NilV, st)
-  ELSE LET r == Ev(xs[i], e, st) IN
-    IF ~Ok(r) \/ i = Len(xs) THEN r ELSE EvBody(xs, i + 1, e, r.st)
+  ELSE IF i = Len(xs) THEN Ev(xs[i], e, st)
+  ELSE LET r == EvSub(xs[i], e, st) IN IF ~Ok(r) THEN r ELSE EvBody(xs, i + 1, e, r.st)
+
+\* no form is in tail position (try body, finally body)
+EvBodySub(xs, i, e, st) ==
+  IF i > Len(xs) THEN R("val", NilV, st)
+  ELSE LET r == EvSub(xs[i], e, st) IN
+    IF ~Ok(r) \/ i = Len(xs) THEN r ELSE EvBodySub(xs, i + 1, e, r.st)
 
 \* evaluate xs[i..] left to right; on success v = ListV(values)
 EvArgs(xs, i, e, st, acc) ==
   IF i > Len(xs) THEN R("val", ListV(acc), st)
-  ELSE LET r == Ev(xs[i], e, st) IN
+  ELSE LET r == EvSub(xs[i], e, st) IN
     IF ~Ok(r) THEN r ELSE EvArgs(xs, i + 1, e, r.st, Append(acc, r.v))
 
 EvLet(b, i, e, st) ==
   IF i > Len(b) THEN R("val", NilV, st)
-  ELSE LET r == Ev(b[i + 1], e, st) IN
+  ELSE LET r == EvSub(b[i + 1], e, st) IN
     IF ~Ok(r) THEN r ELSE EvLet(b, i + 2, e, Bind(r.st, e, b[i].s, r.v))
 
 EvMapLit(m, ks, i, e, st) ==
   IF i > Len(ks) THEN R("val", MapV(m), st)
-  ELSE LET r == Ev(m[ks[i]], e, st) IN
+  ELSE LET r == EvSub(m[ks[i]], e, st) IN
     IF ~Ok(r) THEN r ELSE EvMapLit(MapPut(m, ks[i], r.v), ks, i + 1, e, r.st)
 
 \* the macro closure the head of `a` denotes in scope e, if any
@@ -128,14 +187,14 @@ Expand(a, e, st) ==
   IF st.fuel = 0 THEN R("div", NilV, st)
   ELSE LET mc == MacroOf(a, e, st) IN
     IF ~mc.is THEN R("val", a, st)
-    ELSE LET r == ApplyFn(mc.f, Tail(a.xs), [st EXCEPT !.fuel = @ - 1]) IN
+    ELSE LET r == ApplySub(mc.f, Tail(a.xs), [st EXCEPT !.fuel = @ - 1]) IN
       IF ~Ok(r) THEN r ELSE Expand(r.v, e, r.st)
 
 \* quasiquote as template substitution
 QQ(t, e, st) ==
   IF t.t = "list" THEN
     IF HeadIs(t, "unquote") THEN
-      IF Len(t.xs) < 2 THEN R("unspec", NilV, st) ELSE Ev(t.xs[2], e, st)
+      IF Len(t.xs) < 2 THEN R("unspec", NilV, st) ELSE EvSub(t.xs[2], e, st)
     ELSE LET r == QQSeq(t.xs, 1, e, st, <<>>) IN IF Ok(r) THEN R("val", ListV(r.v.xs), r.st) ELSE r
   ELSE IF t.t = "vec" THEN
     LET r == QQSeq(t.xs, 1, e, st, <<>>) IN IF Ok(r) THEN R("val", VecV(r.v.xs), r.st) ELSE r
@@ -146,7 +205,7 @@ QQSeq(xs, i, e, st, acc) ==
   ELSE LET x == xs[i] IN
     IF HeadIs(x, "splice-unquote") THEN
       IF Len(x.xs) < 2 THEN R("unspec", NilV, st)
-      ELSE LET r == Ev(x.xs[2], e, st) IN
+      ELSE LET r == EvSub(x.xs[2], e, st) IN
         IF ~Ok(r) THEN r
         ELSE IF IsSeq(r.v) THEN QQSeq(xs, i + 1, e, r.st, acc \o r.v.xs)
         \* splicing a non-sequence must fail, but WHERE relative to the effects of later
@@ -161,14 +220,15 @@ ApplyFn(f, args, st) ==
     LET p == f.xs[1] IN
       IF Len(args) < NFixed(p) THEN R("err", ErrV("arity"), st)
       ELSE IF ~IsVariadic(p) /\ Len(args) > NFixed(p) THEN R("unspec", NilV, st)
-      ELSE LET st1 == NewScope(st, f.i, BindParams(p, args)) IN
-        EvBody(Tail(f.xs), 1, LastScope(st1), st1)
+      ELSE LET st1 == NewScope(st, f.i, BindParams(p, args))
+               st2 == Note(ListV(<<SymV("do")>> \o Tail(f.xs)), LastScope(st1), st1)
+           IN EvBody(Tail(f.xs), 1, LastScope(st2), st2)
   ELSE IF f.t = "bfn" THEN CallBuiltin(f.s, args, st)
   ELSE R("err", ErrV("notfn"), st)
 
 MapF(f, xs, i, st, acc) ==
   IF i > Len(xs) THEN R("val", ListV(acc), st)
-  ELSE LET r == ApplyFn(f, <<xs[i]>>, st) IN
+  ELSE LET r == ApplySub(f, <<xs[i]>>, st) IN
     IF ~Ok(r) THEN r ELSE MapF(f, xs, i + 1, r.st, Append(acc, r.v))
 
 CallBuiltin(name, a, st) ==
@@ -197,12 +257,12 @@ CallBuiltin(name, a, st) ==
                           ELSE R("val", a[2], [st EXCEPT !.atoms[a[1].i] = a[2]])
     [] name = "swap!" -> IF n < 2 THEN R("unspec", NilV, st)
                          ELSE IF a[1].t # "atom" THEN R("err", ErrV("builtin"), st)
-                         ELSE LET r == ApplyFn(a[2], <<st.atoms[a[1].i]>> \o SubSeq(a, 3, n), st) IN
+                         ELSE LET r == ApplySub(a[2], <<st.atoms[a[1].i]>> \o SubSeq(a, 3, n), st) IN
                            IF ~Ok(r) THEN r ELSE R("val", r.v, [r.st EXCEPT !.atoms[a[1].i] = r.v])
     [] name = "apply" -> IF n < 2 THEN R("err", ErrV("builtin"), st)
                          ELSE IF a[n].t = "nil" THEN R("unspec", NilV, st)
                          ELSE IF ~IsSeq(a[n]) THEN R("err", ErrV("builtin"), st)
-                         ELSE ApplyFn(a[1], SubSeq(a, 2, n - 1) \o a[n].xs, st)
+                         ELSE ApplySub(a[1], SubSeq(a, 2, n - 1) \o a[n].xs, st)
     [] name = "map" -> IF n # 2 THEN R("err", ErrV("builtin"), st)
                        ELSE IF a[2].t = "nil" THEN R("unspec", NilV, st)
                        ELSE IF ~IsSeq(a[2]) THEN R("err", ErrV("builtin"), st)
@@ -211,18 +271,19 @@ CallBuiltin(name, a, st) ==
          IF n # 3 THEN R("err", ErrV("builtin"), st)
          ELSE IF a[1].t = "map" /\ IsKeyable(a[2]) THEN
            LET k == KeyOf(a[2])
-               r == ApplyFn(a[3], <<IF k \in DOMAIN a[1].m THEN a[1].m[k] ELSE NilV>>, st)
+               r == ApplySub(a[3], <<IF k \in DOMAIN a[1].m THEN a[1].m[k] ELSE NilV>>, st)
            IN IF ~Ok(r) THEN r ELSE R("val", MapV(MapPut(a[1].m, k, r.v)), r.st)
          ELSE IF a[1].t = "vec" /\ IsInt(a[2]) /\ a[2].i >= 0 /\ a[2].i < Len(a[1].xs) THEN
-           LET r == ApplyFn(a[3], <<a[1].xs[a[2].i + 1]>>, st)
+           LET r == ApplySub(a[3], <<a[1].xs[a[2].i + 1]>>, st)
            IN IF ~Ok(r) THEN r ELSE R("val", VecV([a[1].xs EXCEPT ![a[2].i + 1] = r.v]), r.st)
          ELSE R("unspec", NilV, st)
-    [] name = "eval" -> IF n # 1 THEN R("unspec", NilV, st) ELSE Ev(a[1], 1, st)
+    [] name = "eval" -> IF n # 1 THEN R("unspec", NilV, st) ELSE EvSub(a[1], 1, st)
+    [] name = "depth!" -> R("val", IF n >= 1 THEN a[1] ELSE NilV, [st EXCEPT !.depths = Append(@, st.depth)])
     [] OTHER -> R("unspec", NilV, st)
 
 Ev(a, e, st0) ==
   IF st0.fuel = 0 THEN R("div", NilV, st0)
-  ELSE LET st == [st0 EXCEPT !.fuel = @ - 1] IN
+  ELSE LET st == Note(a, e, [st0 EXCEPT !.fuel = @ - 1]) IN
   CASE a.t = "sym" ->
          LET l == Lookup(st.envs, e, a.s) IN
            IF l.found THEN R("val", l.v, st) ELSE R("err", ErrV("undefined"), st)
@@ -241,7 +302,7 @@ Ev(a, e, st0) ==
          IF h.t = "sym" /\ h.s \in SpecialForms THEN
            CASE h.s = "def" ->
                   IF n # 3 \/ a.xs[2].t # "sym" THEN R("unspec", NilV, st)
-                  ELSE LET r == Ev(a.xs[3], e, st) IN
+                  ELSE LET r == EvSub(a.xs[3], e, st) IN
                     IF Ok(r) THEN R("val", r.v, Bind(r.st, e, a.xs[2].s, r.v)) ELSE r
              [] h.s = "let" ->
                   IF n < 2 \/ ~IsSeq(a.xs[2]) \/ Len(a.xs[2].xs) % 2 = 1
@@ -252,11 +313,13 @@ Ev(a, e, st0) ==
                            r == EvLet(a.xs[2].xs, 1, le, st1)
                        IN IF Ok(r) THEN EvBody(a.xs, 3, le, r.st) ELSE r
              [] h.s = "quote" -> IF n # 2 THEN R("unspec", NilV, st) ELSE R("val", a.xs[2], st)
-             [] h.s = "quasiquote" -> IF n # 2 THEN R("unspec", NilV, st) ELSE QQ(a.xs[2], e, st)
+             [] h.s = "quasiquote" -> IF n # 2 THEN R("unspec", NilV, st)
+                                      ELSE IF st.track /\ QQWellFormed(a.xs[2]) THEN Ev(QQRewrite(a.xs[2]), e, st)
+                                      ELSE QQ(a.xs[2], e, st)
              [] h.s = "quasiquoteexpand" -> R("unspec", NilV, st)
              [] h.s = "defmacro" ->
                   IF n # 3 \/ a.xs[2].t # "sym" THEN R("unspec", NilV, st)
-                  ELSE LET r == Ev(a.xs[3], e, st) IN
+                  ELSE LET r == EvSub(a.xs[3], e, st) IN
                     IF ~Ok(r) THEN r
                     ELSE IF r.v.t # "fn" THEN R("unspec", NilV, r.st)
                     ELSE LET mf == [r.v EXCEPT !.s = "macro"] IN R("val", mf, Bind(r.st, e, a.xs[2].s, mf))
@@ -264,7 +327,7 @@ Ev(a, e, st0) ==
              [] h.s = "do" -> EvBody(a.xs, 2, e, st)
              [] h.s = "if" ->
                   IF n \notin {3, 4} THEN R("unspec", NilV, st)
-                  ELSE LET c == Ev(a.xs[2], e, st) IN
+                  ELSE LET c == EvSub(a.xs[2], e, st) IN
                     IF ~Ok(c) THEN c
                     ELSE IF Truthy(c.v) THEN Ev(a.xs[3], e, c.st)
                     ELSE IF n = 4 THEN Ev(a.xs[4], e, c.st) ELSE R("val", NilV, c.st)
@@ -274,13 +337,13 @@ Ev(a, e, st0) ==
              [] h.s = "try" ->
                   LET tp == TryParts(a) IN
                   IF ~tp.ok THEN R("unspec", NilV, st)
-                  ELSE LET rb == EvBody(tp.body, 1, e, st)
+                  ELSE LET rb == EvBodySub(tp.body, 1, e, st)
                            rc == IF rb.k \in {"thr", "err"} /\ tp.hasC
                                  THEN LET st1 == NewScope(rb.st, e, (tp.csym.s :> rb.v))
                                       IN EvBody(tp.handler, 1, LastScope(st1), st1)
                                  ELSE rb
                        IN IF rc.k \in {"div", "unspec"} \/ ~tp.hasF THEN rc
-                          ELSE LET rf == EvBody(tp.fin, 1, e, rc.st) IN
+                          ELSE LET rf == EvBodySub(tp.fin, 1, e, rc.st) IN
                             IF rf.k \in {"div", "unspec"} THEN rf ELSE R(rc.k, rc.v, rf.st)
          ELSE
            LET r == EvArgs(a.xs, 1, e, st, <<>>) IN
@@ -294,7 +357,8 @@ Ev(a, e, st0) ==
 (***************************************************************************)
 Fuel0 == 3000
 BaseState == [envs |-> <<[o |-> 0, b |-> [nm \in BuiltinNames |-> BfnV(nm)]]>>,
-              atoms |-> <<>>, eff |-> <<>>, fuel |-> Fuel0]
+              atoms |-> <<>>, eff |-> <<>>, fuel |-> Fuel0, depth |-> 0, depths |-> <<>>,
+              track |-> FALSE, visits |-> {}]
 
 \* transcribed from lib/core/header-basic.lisp and lib/coreextented/header-coreextended.lisp
 PreludeText ==
@@ -333,6 +397,8 @@ Run(forms) == EvBody(forms, 1, 1, Base)
 RunText(s) == Run(ReadAll(s))
 \* ... after the model's context forms
 RunInCtx(forms) == EvBody(forms, 1, 1, CtxBase)
+\* ... recording every (form, visible bindings) handed to the evaluator
+RunInCtxTracked(forms) == EvBody(forms, 1, 1, [CtxBase EXCEPT !.track = TRUE])
 
 \* observable outcome of a run: kind, value, effect log, selected globals
 Global(st, name) == IF name \in DOMAIN st.envs[1].b THEN st.envs[1].b[name] ELSE Mk("unbound", 0, "", <<>>, NoMap)
@@ -348,9 +414,14 @@ Abstract(v, st) ==
     [] v.t = "map" -> Mk("map", 0, "", <<>>, [k \in DOMAIN v.m |-> Abstract(v.m[k], st)])
     [] OTHER -> v
 
+RECURSIVE SetToSeqAny(_)
+SetToSeqAny(S) == IF S = {} THEN <<>> ELSE LET x == CHOOSE y \in S : TRUE IN <<x>> \o SetToSeqAny(S \ {x})
+
 Outcome(r, globals) ==
   [k |-> r.k,
    v |-> IF r.k \in {"val", "thr", "err"} THEN Abstract(r.v, r.st) ELSE NilV,
    eff |-> [i \in 1..Len(r.st.eff) |-> Abstract(r.st.eff[i], r.st)],
-   g |-> [nm \in globals |-> Abstract(Global(r.st, nm), r.st)]]
+   g |-> [nm \in globals |-> Abstract(Global(r.st, nm), r.st)],
+   depths |-> r.st.depths,
+   visits |-> SetToSeqAny(r.st.visits)]
 =============================================================================
